@@ -4,6 +4,8 @@
    theorem in C02.) *)
 From XcpModel Require Import Base Sparse CopyLoop Updater.
 From XcpProofs Require Import CopyLoopProofs UpdaterProofs.
+From XcpModel Require Import ConcBlock.
+From XcpProofs Require Import ConcBlockProofs ConcOutcomeProofs.
 From XcpModel Require Import Extracted.
 From XcpProofs Require Import ExtractedOk.
 
@@ -59,6 +61,13 @@ Proof.
   pose proof (log_prefix_bound l Hok p s E) as H. unfold g_copied, g_size in H. lia.
 Qed.
 
+(* the protocol fact behind `log_ok`, for EVERY interleaving of parblock: no event of a file (open,
+   block written = Copied update, finalise) occurs before the walker's step that announced its Size
+   and sent it (handles are numbered in the walker's send order; b_next counts the sends) *)
+Theorem C12_size_before_copied : forall W Q ops s, reachable W Q ops s ->
+  forall e, In e (b_ev s) -> (ev_handle e < b_next s)%nat.
+Proof. exact events_after_walk. Qed.
+
 Example C12_nonvacuous :
   chan_deliver 100 0 [USize 250; UCopied 60; UCopied 60; UCopied 60; UError; UCopied 70]
   = [USize 250; UCopied 60; UError; UCopied 70].
@@ -77,3 +86,4 @@ Print Assumptions C12_block_job_reports_le_block.
 Print Assumptions C12_prefix_bound.
 Print Assumptions C12_prefix_bound_delivered.
 Print Assumptions C12_src_send_condition.
+Print Assumptions C12_size_before_copied.
